@@ -220,8 +220,12 @@ func (w *W) caseMap(s Str, upper bool, what string) Value {
 		ascii = ts.And(ascii, ts.Ult(b, ts.BV(8, 0x80)))
 	}
 	if !ascii.IsTrue() {
-		if w.checkSat(ts.Not(ascii)) != Unsat {
-			unsupp("%s on a string that may contain non-ASCII bytes", what)
+		// The bytewise model is exact for ASCII only. Where non-ASCII bytes
+		// are possible the path splits: the all-ASCII side goes on with the
+		// model, the other side ends as unsupported (inconclusive, never a
+		// pass) — Unicode case mapping is not modelled.
+		if w.fork([]*Term{ascii, ts.Not(ascii)}, true, what) == 1 {
+			unsupp("%s on a string that contains non-ASCII bytes", what)
 		}
 	}
 	out := make([]*Term, len(bs))
